@@ -9,11 +9,11 @@ use serde::de::DeserializeSeed;
 use serde_json::{json, Value};
 use std::sync::{Arc, Mutex};
 use surf_n_term::view::{
-    Align, Axis, BoxConstraint, Container, Dynamic, Either, Flex, FlexChild, FlexRef, Frame, Justify, Layout, Margins, ScrollBar,
-    ScrollBarPosition, Tag, Text, Tree, View, ViewContext, ViewDeserializer, ViewLayout, ViewLayoutStore, ViewMutLayout,
+    Align, ArcView, Axis, BoxConstraint, Container, Dynamic, Either, Flex, FlexChild, FlexRef, Frame, Justify, Layout, Margins, ScrollBar,
+    ScrollBarPosition, Tag, Text, Tree, View, ViewCache, ViewContext, ViewDeserializer, ViewLayout, ViewLayoutStore, ViewMutLayout,
 };
 use surf_n_term::{
-    Cell, CellWrite, Error, Face, Position, Size, Surface, SurfaceMut, SurfaceMutView, TerminalSurface, RGBA,
+    Cell, CellWrite, Error, Face, Position, Size, Surface, SurfaceMut, SurfaceMutView, SurfaceOwned, TerminalSurface, RGBA,
 };
 
 type BView = Box<dyn View + 'static>;
@@ -60,6 +60,41 @@ impl View for DynView {
     }
 }
 
+/// the cache behind JSON "ref": uid -> the view built from the AST node registered under it
+struct Cache {
+    views: Vec<ArcView<'static>>,
+}
+
+impl ViewCache for Cache {
+    fn get(&self, uid: i64) -> Option<ArcView<'static>> {
+        if uid < 0 {
+            return None;
+        }
+        self.views.get(uid as usize).cloned()
+    }
+}
+
+fn base64(data: &[u8]) -> String {
+    const T: &[u8; 64] = b"ABCDEFGHIJKLMNOPQRSTUVWXYZabcdefghijklmnopqrstuvwxyz0123456789+/";
+    let mut out = String::new();
+    for ch in data.chunks(3) {
+        let b = [ch[0], *ch.get(1).unwrap_or(&0), *ch.get(2).unwrap_or(&0)];
+        let n = ((b[0] as u32) << 16) | ((b[1] as u32) << 8) | b[2] as u32;
+        out.push(T[(n >> 18) as usize & 63] as char);
+        out.push(T[(n >> 12) as usize & 63] as char);
+        out.push(if ch.len() > 1 { T[(n >> 6) as usize & 63] as char } else { '=' });
+        out.push(if ch.len() > 2 { T[n as usize & 63] as char } else { '=' });
+    }
+    out
+}
+
+/// JSON document of an image of one colour (3 channels)
+fn image_doc(h: usize, w: usize, color: u64) -> Value {
+    let px = [(color >> 24) as u8, (color >> 16) as u8, (color >> 8) as u8];
+    let data: Vec<u8> = (0..h * w).flat_map(|_| px).collect();
+    json!({"data": base64(&data), "channels": 3, "size": {"height": h, "width": w}})
+}
+
 // ---------- AST helpers ----------
 fn kind_code(t: &str) -> u64 {
     match t {
@@ -77,6 +112,9 @@ fn kind_code(t: &str) -> u64 {
         "image" => 12,
         "glyph" => 13,
         "probe" => 14,
+        "surface" => 15,
+        "ascii" => 16,
+        "cached" => 17,
         _ => 0,
     }
 }
@@ -276,6 +314,27 @@ fn build(node: &Value, env: &Arc<Env>) -> BView {
             Some(g) => Box::new(g.clone()),
             None => Box::new(()),
         },
+        "surface" => {
+            // SurfaceView<'static, Cell> over a leaked surface filled with one cell
+            let cell = Cell::new_char(face_from(&node["face"]), char::from_u32(node["ch"].as_u64().unwrap_or(83) as u32).unwrap_or('S'));
+            let owned: &'static SurfaceOwned<Cell> = Box::leak(Box::new(SurfaceOwned::new_with(
+                Size::new(node["h"].as_u64().unwrap_or(1) as usize, node["w"].as_u64().unwrap_or(1) as usize),
+                |_| cell.clone(),
+            )));
+            Box::new(owned.as_ref())
+        }
+        "ascii" => {
+            let doc = image_doc(node["h"].as_u64().unwrap_or(1) as usize, node["w"].as_u64().unwrap_or(1) as usize, node["color"].as_u64().unwrap_or(255));
+            let v: surf_n_term::image::ImageAsciiView = serde_json::from_value(doc).expect("image_ascii");
+            Box::new(v)
+        }
+        "cached" => {
+            // ViewCached is only reachable through JSON: {"type": "ref", "ref": uid}
+            let cache = Cache { views: match node.get("v") { Some(v) if !v.is_null() => vec![Arc::from(build(v, env))], _ => vec![] } };
+            let de = ViewDeserializer::new(None, Some(Arc::new(cache)));
+            let v = (&de).deserialize(json!({"type": "ref", "ref": 0})).expect("ref");
+            return Box::new(v);
+        }
         _ => Box::new(Probe {
             id: node["id"].as_u64().unwrap_or(0),
             pref: Size::new(node["ph"].as_u64().unwrap_or(1) as usize, node["pw"].as_u64().unwrap_or(1) as usize),
@@ -347,6 +406,11 @@ fn doc(node: &Value) -> Value {
         }
         "tag" => json!({"type": "tag", "tag": node["tag"], "view": doc(&node["v"])}),
         "str" => json!({"type": "text", "text": string_of(node)}),
+        "ascii" => {
+            let mut d = image_doc(node["h"].as_u64().unwrap_or(1) as usize, node["w"].as_u64().unwrap_or(1) as usize, node["color"].as_u64().unwrap_or(255));
+            d["type"] = json!("image_ascii");
+            d
+        }
         _ => json!({"type": "h", "node": node}),
     }
 }
@@ -423,6 +487,18 @@ fn node_coq(node: &Value, env: &Env) -> String {
             ),
             None => "VUnit".to_string(),
         },
+        "surface" => format!(
+            "(VSurface {} {} (mkCell {} (KChar {})))",
+            node["h"].as_u64().unwrap_or(1),
+            node["w"].as_u64().unwrap_or(1),
+            face_coq(&face_from(&node["face"])),
+            node["ch"].as_u64().unwrap_or(83)
+        ),
+        "ascii" => format!("(VImageAscii {} {} {})", node["h"].as_u64().unwrap_or(1), node["w"].as_u64().unwrap_or(1), (node["color"].as_u64().unwrap_or(255) & 0xffffff00) | 255),
+        "cached" => match node.get("v") {
+            Some(v) if !v.is_null() => format!("(VRef (Some {}))", node_coq(v, env)),
+            _ => "(VRef None)".to_string(),
+        },
         _ => format!("(VProbe {} {} {})", node["id"].as_u64().unwrap_or(0), node["ph"].as_u64().unwrap_or(1), node["pw"].as_u64().unwrap_or(1)),
     }
 }
@@ -432,6 +508,8 @@ fn tree_coq(t: ViewLayout<'_>) -> String {
         format!("(DTag {})", tag)
     } else if let Some(tag) = t.data::<Value>() {
         format!("(DTag {})", tag.as_u64().unwrap_or(0))
+    } else if t.data::<ArcView<'static>>().is_some() {
+        "DRef".to_string()
     } else if let Some(d) = t.data::<DynView>() {
         format!("(DCt (mkCt {} {} {} {}))", d.ct.min().height, d.ct.min().width, d.ct.max().height, d.ct.max().width)
     } else {
@@ -667,6 +745,8 @@ fn gen_leaf(rng: &mut Rng, g: &mut Gen) -> Value {
                    "off": rng.below(lim_o), "vis": rng.below(lim_v), "den": *rng.pick(&[8u64, 8, 8, 8, 3, 7, 0])})
         }
         4 => json!({"t": "none"}),
+        14 => json!({"t": "surface", "h": rng.below(5), "w": rng.below(6), "ch": 83 + rng.below(3), "face": gen_small_face(rng)}),
+        15 => json!({"t": "ascii", "h": rng.below(7), "w": rng.below(6), "color": ((rng.below(256) << 24) | (rng.below(256) << 16) | 0x33ff) as u64}),
         5 => json!({"t": "fill", "color": ((rng.below(256) << 24) | (rng.below(256) << 16) | 0x55ff) as u64}),
         6 => json!({"t": "unit"}),
         7 if g.ni > 0 => json!({"t": "image", "id": rng.below(g.ni as u64)}),
@@ -725,6 +805,13 @@ fn gen_node(rng: &mut Rng, g: &mut Gen, depth: usize) -> Value {
                 json!({"t": "some", "v": gen_node(rng, g, depth - 1)})
             } else {
                 json!({"t": "either", "left": rng.chance(1, 2), "v": gen_node(rng, g, depth - 1)})
+            }
+        }
+        10 => {
+            if rng.chance(1, 5) {
+                json!({"t": "cached", "v": Value::Null})
+            } else {
+                json!({"t": "cached", "v": gen_node(rng, g, depth - 1)})
             }
         }
         _ => json!({"t": "dyn", "k": 1 + rng.below(3), "a": gen_node(rng, g, depth - 1), "b": gen_node(rng, g, depth - 1)}),
